@@ -18,7 +18,6 @@ package main
 import (
 	"go/token"
 	"go/types"
-	"strings"
 
 	"golang.org/x/tools/go/ssa"
 )
@@ -425,9 +424,9 @@ func checkExpressionShortcuts(w *World, r *Report) {
 		if !sameValue(unspill(c.Call.Args[len(c.Call.Args)-1]), unspill(x)) {
 			return false
 		}
-		// walks the characters with a byte/rune class predicate or comparisons: a whole-string test
-		// returning false on the first offending character
-		return strings.Contains(strings.ToLower(g.Name()), "valid") || strings.Contains(strings.ToLower(g.Name()), "identifier") || strings.Contains(strings.ToLower(g.Name()), "name")
+		// a whole-string test: it looks at every character (an index with a loop variable, or a
+		// range over the text), directly or through another such test
+		return wholeStringTest(g, 0)
 	}
 	n := 0
 	for _, fn := range w.pkgFuncs() {
@@ -624,4 +623,43 @@ func checkExpressionShortcuts(w *World, r *Report) {
 func isString(t types.Type) bool {
 	b, ok := t.Underlying().(*types.Basic)
 	return ok && b.Info()&types.IsString != 0
+}
+
+
+// wholeStringTest: g(s string) bool examines the characters of s one by one (s[i] with a
+// non-constant index, or range s) — or hands s to another function that does.
+func wholeStringTest(g *ssa.Function, depth int) bool {
+	if g == nil || len(g.Blocks) == 0 || depth > 2 || len(g.Params) == 0 {
+		return false
+	}
+	p := g.Params[len(g.Params)-1]
+	if !isString(p.Type()) {
+		return false
+	}
+	found := false
+	instrsOf(g, func(in ssa.Instruction) {
+		switch x := in.(type) {
+		case *ssa.Index:
+			if unspill(x.X) == ssa.Value(p) {
+				if _, isC := x.Index.(*ssa.Const); !isC {
+					found = true
+				}
+			}
+		case *ssa.Lookup:
+			if unspill(x.X) == ssa.Value(p) {
+				if _, isC := x.Index.(*ssa.Const); !isC {
+					found = true
+				}
+			}
+		case *ssa.Range:
+			if unspill(x.X) == ssa.Value(p) {
+				found = true
+			}
+		case *ssa.Call:
+			if h := x.Call.StaticCallee(); h != nil && isTwigFn(h) && len(x.Call.Args) > 0 && unspill(x.Call.Args[len(x.Call.Args)-1]) == ssa.Value(p) && wholeStringTest(h, depth+1) {
+				found = true
+			}
+		}
+	})
+	return found
 }
